@@ -7,7 +7,8 @@
 (*   const  [name, e]   var [name, e]  defseg [name, start, hasPc, pc]                     *)
 (*   useseg [name, hasBody, body]      if [e, then, hasElse, else] loop  [e, sid, body]    *)
 (*   macrodef [name, params, body]     macrocall [name, args]                              *)
-(*   import [file, sid, hasAs, as, hasParams, params]   (.import * [as m] from "file" [{params}]) *)
+(*   import [file, sid, hasAs, as, hasParams, params, sel]   .import * [as m] from "file" [{params}];            *)
+(*          sel = <<[name, as]>> non-empty: .import name [as other], ... from "file" [{params}]                  *)
 (* Expressions are Expr trees; identifier nodes carry name (a key unique per spelling)     *)
 (* and path (sequence of identifiers, possibly starting with "super").                     *)
 (*                                                                                        *)
@@ -307,13 +308,23 @@ WalkStmt(s, st, sigma, frozen, af, md) ==
                     (or in the scope named by `as'), together with everything below it *)
                  from == Key(st.scope, <<s.sid>>) \o "."
                  to   == IF s.hasAs THEN Key(st.scope, <<s.as>>) \o "." ELSE (IF st.scope = <<>> THEN "" ELSE Key(st.scope, <<>>) \o ".")
-                 exported == {k \in DOMAIN s3.tab : HasPrefix(k, from) /\ ~SpecialFirst(k, from)}
-                 alias == [k2 \in {to \o Suffix(k, from) : k \in exported} |->
-                             s3.tab[CHOOSE k \in exported : to \o Suffix(k, from) = k2]]
+                 (* `.import *': all non-special children; `.import a, b as c': the named ones under their (new) names *)
+                 sel == IF "sel" \in DOMAIN s THEN s.sel ELSE <<>>
+                 Root(k) == \E i \in 1..Len(sel) : k = from \o sel[i].name \/ HasPrefix(k, from \o sel[i].name \o ".")
+                 NewName(k) == LET i == CHOOSE i \in 1..Len(sel) : k = from \o sel[i].name \/ HasPrefix(k, from \o sel[i].name \o ".") IN
+                               to \o sel[i].as \o Suffix(k, from \o sel[i].name)
+                 exported == IF sel = <<>> THEN {k \in DOMAIN s3.tab : HasPrefix(k, from) /\ ~SpecialFirst(k, from)}
+                             ELSE {k \in DOMAIN s3.tab : Root(k)}
+                 Target(k) == IF sel = <<>> THEN to \o Suffix(k, from) ELSE NewName(k)
+                 alias == [k2 \in {Target(k) : k \in exported} |-> s3.tab[CHOOSE k \in exported : Target(k) = k2]]
                  clash == \E k2 \in DOMAIN alias : k2 \in DOMAIN s3.tab /\ k2 \notin s3.aliases /\ s3.tab[k2] # alias[k2]
-             IN IF clash THEN Err(s3, [k |-> "importclash", sid |-> s.sid])
-                ELSE [s3 EXCEPT !.tab = alias @@ @, !.aliases = @ \cup DOMAIN alias,
-                                !.labels = @ \cup {to \o Suffix(k, from) : k \in {x \in exported : x \in s3.labels}}]
+                 missing == {i \in 1..Len(sel) : from \o sel[i].name \notin DOMAIN s3.tab}
+                 s4 == IF missing = {} \/ frozen THEN s3
+                       ELSE [s3 EXCEPT !.undef = @ \cup {[scope |-> st.scope, name |-> sel[i].name, sid |-> s.sid] : i \in missing}]
+             IN IF clash THEN Err(s4, [k |-> "importclash", sid |-> s.sid])
+                ELSE IF frozen /\ missing # {} THEN Err(s4, [k |-> "unresolved", ids |-> {sel[i].name : i \in missing}])
+                ELSE [s4 EXCEPT !.tab = alias @@ @, !.aliases = @ \cup DOMAIN alias,
+                                !.labels = @ \cup {Target(k) : k \in {x \in exported : x \in s4.labels}}]
     [] OTHER -> st
 
 (* symbols the pass loop registers for every segment after each pass *)
